@@ -9,9 +9,9 @@ import (
 
 	"github.com/Comcast/sheens/core"
 	"pgregory.net/rapid"
-	"verif/internal/crewh"
-	"verif/internal/ev"
-	"verif/internal/jsongen"
+	"verif/lib/crewh"
+	"verif/lib/ev"
+	"verif/lib/jsongen"
 )
 
 // ---------------------------------------------------------------- C14 (sio)
